@@ -665,7 +665,7 @@ func (g *fdGen) meta(ns, name string) fdMeta {
 // observed: mostly the generation itself, sometimes behind (skew), rarely ahead
 func (g *fdGen) observed(gen int) int {
 	switch {
-	case g.p(78):
+	case g.p(85):
 		return gen
 	case g.p(80):
 		return gen - 1
@@ -919,7 +919,10 @@ func (g *fdGen) world() fdIn {
 	}
 	// ref
 	rk := fdGoodRefs[g.rnd(len(fdGoodRefs))]
-	if g.p(22) {
+	if in.Strategy.BlueGreen && g.p(75) {
+		rk = fdGoodRefs[g.rnd(3)] // what the blue-green style supports: CloneSet, Deployment
+	}
+	if g.p(16) {
 		rk = fdOddRefs[g.rnd(len(fdOddRefs))]
 	}
 	in.Ref = fdRef{APIVersion: rk.api, Kind: rk.kind, Name: "wl"}
@@ -933,7 +936,7 @@ func (g *fdGen) world() fdIn {
 	// objects: the kind the ref names, mostly present under the ref's name in the rollout's namespace
 	place := func() (string, string) {
 		switch {
-		case g.p(82):
+		case g.p(90):
 			return in.NS, "wl"
 		case g.p(50):
 			return fdNamespaces[1-indexOf(fdNamespaces, in.NS)], "wl"
@@ -973,7 +976,7 @@ func (g *fdGen) world() fdIn {
 			primary = "KruiseStatefulSet"
 		}
 	}
-	if primary != "" && g.p(92) {
+	if primary != "" && g.p(95) {
 		add(primary)
 	}
 	// an unstructured object under exactly the ref's GVK (reached for a version no typed object is registered under,
